@@ -68,6 +68,10 @@ Concat(lo, wlo, hi, whi) == BOr(Norm(lo, wlo + whi), ShlN(Norm(hi, wlo + whi), w
 SarN(v, s, w) == LET t == IF s >= w THEN w ELSE s IN
    IF Msb(v, w) = 0 THEN ShrN(v, t, w)
    ELSE BOr(ShrN(v, t, w), ShlN(Ones(w), w - t, w), w)
+\* exact value of v modulo m (m <= 256 * 2^15): Horner over the limbs from the top
+ModSmall(v, m) == LET RECURSIVE go(_,_)
+                      go(i, acc) == IF i = 0 THEN acc ELSE go(i - 1, (acc * 256 + v[i]) % m)
+                  IN go(Len(v), 0)
 RolN(v, s, w) == LET r == s % w IN IF r = 0 THEN v ELSE BOr(ShlN(v, r, w), ShrN(v, w - r, w), w)
 RorN(v, s, w) == LET r == s % w IN IF r = 0 THEN v ELSE BOr(ShrN(v, r, w), ShlN(v, w - r, w), w)
 \* rotate through carry: the (w+1)-bit quantity cf:v rotated by s mod (w+1); result <<value, carry>>
